@@ -111,7 +111,7 @@ func runSolver(ctx context.Context, s solverSpec, text string, dir string, id st
 func solveQuery(q *Query, dir, id string, timeoutS int, order int) (status, solver, out string, ms int64) {
 	text := q.Text(true)
 	ctx := context.Background()
-	first := 2
+	first := 4
 	if timeoutS < first {
 		first = timeoutS
 	}
